@@ -514,3 +514,74 @@ func (p *Program) canonText(fi *FuncInfo, e ast.Expr) string {
 	}
 	return s
 }
+
+// sliceRegion resolves a byte-slice expression (through local copies) to its base variable and constant lower
+// bound: buf[4:] and `block := buf[prefixSize:]` are both (buf, 4). hi is the canonical text of the upper
+// bound ("" when open).
+func (p *Program) sliceRegion(fi *FuncInfo, e ast.Expr) (base string, lo int64, hi string, ok bool) {
+	info := fi.Pkg.TypesInfo
+	e = ast.Unparen(p.expandExpr(fi, e, 0))
+	for {
+		pe, isP := e.(*ast.ParenExpr)
+		if !isP {
+			break
+		}
+		e = ast.Unparen(pe.X)
+	}
+	switch x := e.(type) {
+	case *ast.Ident:
+		return x.Name, 0, "", true
+	case *ast.SelectorExpr:
+		return exprStr(x), 0, "", true
+	case *ast.SliceExpr:
+		b, l0, _, okB := p.sliceRegion(fi, x.X)
+		if !okB {
+			return "", 0, "", false
+		}
+		if x.Low != nil {
+			k, isK := constInt(info, ast.Unparen(stripParens(x.Low)))
+			if !isK {
+				return "", 0, "", false
+			}
+			l0 += k
+		}
+		h := ""
+		if x.High != nil {
+			h = strings.ReplaceAll(exprStr(x.High), " ", "")
+		}
+		return b, l0, h, true
+	}
+	return "", 0, "", false
+}
+
+func stripParens(e ast.Expr) ast.Expr {
+	for {
+		pe, ok := e.(*ast.ParenExpr)
+		if !ok {
+			return e
+		}
+		e = pe.X
+	}
+}
+
+// constPlusIdent: e is <ident> + <const> (either order, constants folded): returns the identifier and the sum.
+func constPlusIdent(info *types.Info, e ast.Expr) (string, int64, bool) {
+	e = stripParens(e)
+	if id, ok := e.(*ast.Ident); ok {
+		if k, isK := constInt(info, id); isK {
+			return "", k, true
+		}
+		return id.Name, 0, true
+	}
+	if k, ok := constInt(info, e); ok {
+		return "", k, true
+	}
+	if b, ok := e.(*ast.BinaryExpr); ok && b.Op == token.ADD {
+		n1, k1, ok1 := constPlusIdent(info, b.X)
+		n2, k2, ok2 := constPlusIdent(info, b.Y)
+		if ok1 && ok2 && (n1 == "" || n2 == "") {
+			return n1 + n2, k1 + k2, true
+		}
+	}
+	return "", 0, false
+}
